@@ -131,14 +131,15 @@ Section Edge.
     match rf with None => True | Some f => forall x x', Permutation x x' -> f x = f x' end.
 
   (* (a) interval k of the permuted matrix is a permutation of interval k of the original; references,
-     boundaries and the RuntimeError condition are identical *)
-  Theorem split_edge_perm slicers mk rf rows rows' i c :
-    nth_error slicers c = Some (edge_slicer T R leb mk rf) -> plan_inv mk -> rf_inv rf ->
+     boundaries and the RuntimeError condition are identical.  The plan (value range -> edges, references)
+     only has to agree on the two orders of the conditioning column. *)
+  Theorem split_edge_perm_on slicers mk rf rows rows' i c :
+    nth_error slicers c = Some (edge_slicer T R leb mk rf) -> mk (col c rows) = mk (col c rows') -> rf_inv rf ->
     Permutation rows rows' ->
     split_equiv (split_in_intervals T R d0 slicers rows i c) (split_in_intervals T R d0 slicers rows' i c).
   Proof.
     intros Hs Hmk Hrf HP. rewrite !(split_edge_spec slicers mk rf _ i c Hs). cbv zeta.
-    rewrite <- (Hmk _ _ (col_perm c rows rows' HP)).
+    rewrite <- Hmk.
     rewrite <- (kept_perm (mk (col c rows)) _ _ (col_perm c rows rows' HP)).
     destruct (length (kept (mk (col c rows)) (col c rows)) <? pl_mni (mk (col c rows))); cbn; [exact I|].
     split; [|split; [|reflexivity]].
@@ -146,6 +147,12 @@ Section Edge.
     - apply map_ext. intros a. unfold ref_of. destruct rf as [f|]; [|reflexivity].
       apply Hrf. apply members_perm. exact HP.
   Qed.
+
+  Theorem split_edge_perm slicers mk rf rows rows' i c :
+    nth_error slicers c = Some (edge_slicer T R leb mk rf) -> plan_inv mk -> rf_inv rf ->
+    Permutation rows rows' ->
+    split_equiv (split_in_intervals T R d0 slicers rows i c) (split_in_intervals T R d0 slicers rows' i c).
+  Proof. intros Hs Hmk Hrf HP. apply (split_edge_perm_on slicers mk rf); auto. apply Hmk. apply col_perm. exact HP. Qed.
 End Edge.
 
 (* ------------------------------------------------------------------ the whole fit *)
